@@ -119,6 +119,32 @@ def build(spec, log=None, lookup=None):
     lg = b.log
     n = spec["n"]
     faults = spec.get("faults", [])
+    # restatements (C10): the user functions of this statement evaluate the base functions at
+    # the lifted point X(y); lg.lifted[seq] records X(y) for every logged call
+    lift = spec.get("lift")
+    lg.lifted = {}
+    if lift is None:
+        X = lambda y: np.asarray(y, float)
+    elif lift["kind"] == "fixed":
+        mask = np.array(lift["mask"], bool)
+        vals = np.array(lift["vals"], float)
+
+        def X(y):
+            x = np.empty(mask.size)
+            x[mask] = vals
+            x[~mask] = y
+            return x
+    elif lift["kind"] == "affine":
+        fac = np.array(lift["factor"], float)
+        shf = np.array(lift["shift"], float)
+        clo = np.array(lift["lb"], float)
+        chi = np.array(lift["ub"], float)
+
+        def X(y):
+            return np.clip(np.asarray(y, float) * fac + shf, clo, chi)
+    else:
+        raise ValueError(lift["kind"])
+    b.X = X
     b.n = n
     b.x0 = list(spec["x0"]) if spec.get("x0_form", "list") == "list" else np.array(spec["x0"], float)
     b.lb = np.array(spec["lb"], float)
@@ -146,10 +172,13 @@ def build(spec, log=None, lookup=None):
             if lookup is not None:
                 v = lookup("obj", 0, k, x)
             else:
-                v = eval_obj(o, np.asarray(x, float))
+                xs = X(x)
+                v = eval_obj(o, xs)
                 for t in a:
                     v = v + t
-                v = fault_value(faults, "obj", 0, k, x, v)
+                v = fault_value(faults, "obj", 0, k, xs, v)
+            if lift is not None:
+                lg.lifted[len(lg.events)] = X(x)
             lg.add("obj", 0, x, float(np.squeeze(v)))
             return wrap_ret(v, o.get("ret", "float"))
 
@@ -178,14 +207,16 @@ def build(spec, log=None, lookup=None):
             if lookup is not None:
                 vals = lookup("nl", i, k, x)
             else:
-                xf = np.asarray(x, float)
+                xf = X(x)
                 vals = []
                 for j, c in enumerate(comps):
                     v = eval_comp(c, xf)
                     for t in a:
                         v = v + t
-                    vals.append(fault_value(faults, "nl%d" % i, j, k, xf, v))
+                    vals.append(fault_value(faults, N.get("fault_name", "nl%d" % i), c.get("fault_comp", j), k, xf, v))
                 vals = np.array(vals, float)
+            if lift is not None:
+                lg.lifted[len(lg.events)] = X(x)
             lg.add("nl", i, x, np.array(vals, float, copy=True))
             if N.get("scalar") and len(comps) == 1:
                 return float(vals[0])
@@ -530,7 +561,7 @@ def problems(draw, profile=None):
     lin = []
     for _ in range(draw(st.integers(0, P["max_lin"]))):
         m = draw(wsample([(1, 4), (2, 3), (3, 1)]))
-        A = [[draw(st.integers(-2, 2)) for _ in range(n)] for _ in range(m)]
+        A = [[draw(st.sampled_from(P.get("lin_entries") or [-2, -1, 0, 1, 2])) for _ in range(n)] for _ in range(m)]
         if m >= 2 and pct(20):
             A[1] = list(A[0])  # duplicated row
         lo, hi = [], []
